@@ -2,3 +2,5 @@ import Codec.Parse
 import Codec.Codec
 import Codec.Utf8
 import Codec.Leaf
+import Codec.Bridge
+import Codec.Decide
